@@ -83,6 +83,7 @@ class Rec:
         kw.setdefault('tw15', 0)
         kw.setdefault('complete', True)
         kw.setdefault('expect', dict(attrs=[], hasText=False, text=[]))
+        kw.setdefault('stored', dict(isstr=False, s=[]))
         self.out.append(kw)
         return kw['id']
 
@@ -143,8 +144,10 @@ def run_elem(R, J, name, tokens, full, reduced):
         v = pyvalue(tok)
         pre = R.state(e)
         res, _ = R.call(lambda: setattr(e, py, v))
+        sv = e.attributes.get(py.replace('_', '-'))        # projection: the string the element now holds for that name
         return R.emit(op='unset' if tok['kind'] == 'none' else 'setattr', surface='dot', name=py.replace('_', '-'),
-                      tok=logtok(tok, v), res=res, pre=pre, post=R.state(e), parent=parent, **base)
+                      tok=logtok(tok, v), res=res, pre=pre, post=R.state(e), parent=parent,
+                      stored=dict(isstr=isinstance(sv, str), s=cps(sv) if isinstance(sv, str) else []), **base)
 
     def get(e, py, parent):
         pre = R.state(e)
@@ -239,8 +242,10 @@ def run_elem(R, J, name, tokens, full, reduced):
             tostring(e, i1)
             new_kw(py, tok, i1)
     # ---- text
-    text_toks = tokens.get(st, []) if st else [dict(kind='str', s=cps(x), m=0, e=0) for x in ('x', ' ', '')] + \
-        [dict(kind='int', s=cps('1'), m=0, e=0)]
+    text_toks = tokens.get(st, []) if st else [dict(kind='str', s=cps('x'), m=0, e=0), dict(kind='int', s=cps('0'), m=0, e=0),
+                                              dict(kind='float', s=[], m=0, e=0), dict(kind='special', s=cps('False'), m=0, e=0),
+                                              dict(kind='str', s=cps(' '), m=0, e=0), dict(kind='str', s=cps(''), m=0, e=0),
+                                              dict(kind='int', s=cps('1'), m=0, e=0)]
     if not is_full:
         text_toks = text_toks[:reduced]
     for tok in text_toks:
